@@ -12,6 +12,7 @@ package c14
 
 import (
 	"os"
+	"runtime/debug"
 	"strings"
 	"testing"
 
@@ -20,6 +21,7 @@ import (
 
 func TestC14(t *testing.T) {
 	r := vcore.Start(t, "C14")
+	defer debug.SetGCPercent(debug.SetGCPercent(600)) // millions of tiny solves: allocation-bound
 	only := os.Getenv("C14_ONLY") // debugging aid: comma-separated family prefixes
 	want := func(name string) bool {
 		if only == "" {
@@ -56,7 +58,7 @@ func TestC14(t *testing.T) {
 		for _, fam := range []string{"cmp.bounded.IsLess", "cmp.bounded.IsLessEq", "cmp.bounded.Min", "cmp.bounded.AssertIsLess", "cmp.bounded.AssertIsLessEq",
 			"cmp.generic.IsLess", "cmp.generic.IsLessOrEqual", "cmp.generic.IsEqual", "cmp.generic.IsLessBinary", "cmp.generic.IsLessOrEqualBinary",
 			"selector.Mux", "selector.Map", "selector.KeyDecoder", "selector.Decoder", "selector.Slice", "selector.Partition", "selector.BinaryMux",
-			"bitslice.Partition", "uints.U32", "uints.U64"} {
+			"bitslice.Partition", "uints.Add", "uints.bitwise", "uints.rotate-shift", "uints.conversion"} {
 			var n int64
 			for _, b := range builders {
 				for _, f := range []string{"tinyfield", "bn254", "bls12-377"} {
@@ -73,9 +75,10 @@ func TestC14(t *testing.T) {
 		r.Require("assert-wrong.rejected.with-aimed-lie", 1000)
 		r.Require("assert-right.accepted", 2000)
 		r.Require("cmp.bounded.constructor-panics-as-documented", 10)
-		r.Require("cmp.bounded.inputs.regime1", 1000)
-		r.Require("cmp.bounded.inputs.regime2", 1000)
-		r.Require("cmp.bounded.inputs.regime3", 1000)
+		r.Require("cmp.bounded.expect.exact", 1000)
+		r.Require("cmp.bounded.expect.no-proof", 1000)
+		r.Require("cmp.bounded.expect.no-proof-or-listed", 1000)
+		r.Require("cmp.bounded.expect.undefined", 10)
 	}
 	r.Finish("exploration",
 		"case = (field, builder, gadget configuration incl. constants/lengths/absDiffUpp, input vector); each case is compiled gadget code solved with its own hints and compared with a direct integer implementation of the doc comments (exact inside the documented domain; 'no proof' where promised; 'no proof or listed value' in the bounded comparator's intermediate regimes; no verdict where documented undefined), then re-solved with dishonest hint functions (generic and aimed at a chosen wrong output) and with each wrong output asserted. tinyfield: all pairs / all selector values; bn254, bls12-377: edge grids. distinct = hash(system, inputs); non-trivial = the compiled system was solved at least once for the case",
